@@ -61,6 +61,7 @@ type vGen struct {
 	inputs   []string
 	secrets  []string
 	outs     []string
+	bias     []string // expressions preferred while a directed scenario is being generated
 }
 
 func (g *vGen) pick(l []string) string { return l[g.rng.Intn(len(l))] }
@@ -68,8 +69,13 @@ func (g *vGen) pick(l []string) string { return l[g.rng.Intn(len(l))] }
 // expr draws an expression that refers to one of the scoped contexts (defined and undefined names, random letter case).
 func (g *vGen) expr() string {
 	rc := func(s string) string { return randCase(g.rng, s) }
+	if len(g.bias) > 0 && g.rng.Intn(2) == 0 {
+		return g.pick(g.bias)
+	}
 	var e string
-	switch g.rng.Intn(12) {
+	k := g.rng.Intn(12)
+	defer func() {}()
+	switch k {
 	case 0, 1:
 		e = "steps." + rc(g.pick(g.stepIDs)) + "." + g.pick([]string{"outputs.x", "conclusion", "outcome", "outputs.ref", "nope", "outputs"})
 	case 2:
@@ -93,12 +99,38 @@ func (g *vGen) expr() string {
 	default:
 		e = "needs." + g.pick(g.jobIDs) + ".outputs." + g.pick(g.outs) + " || matrix." + g.pick(g.matrixKs)
 	}
+	if k <= 7 && g.rng.Intn(3) == 0 {
+		// the same reference with some of its property accesses written as ['name'] (any letter case)
+		e = bracketSpelling(g.rng, e)
+	}
 	if g.rng.Intn(9) == 0 {
 		// reads of untrusted inputs (reported in script positions only)
 		e = g.pick([]string{"github.event.issue.title", "github.head_ref", "github.event.pull_request.head.ref", "GITHUB.event.comment.Body", "github['event']['issue']['body']",
 			"github.event.commits.*.message", "contains(github.event.issue.title, 'x')", "format('{0}', github.event.review.body)", "github.event.issue.number", "github.event.pages.*.page_name"})
 	}
 	return e
+}
+
+// bracketSpelling rewrites `a.b.c[0]` so that each `.name` (name an identifier) becomes `['name']` with probability 1/2
+func bracketSpelling(rng *rand.Rand, e string) string {
+	var sb strings.Builder
+	i := 0
+	for i < len(e) {
+		if e[i] == '.' && i+1 < len(e) {
+			j := i + 1
+			for j < len(e) && (e[j] == '_' || e[j] == '-' || e[j] >= 'a' && e[j] <= 'z' || e[j] >= 'A' && e[j] <= 'Z' || e[j] >= '0' && e[j] <= '9') {
+				j++
+			}
+			if j > i+1 && rng.Intn(2) == 0 {
+				sb.WriteString("['" + e[i+1:j] + "']")
+				i = j
+				continue
+			}
+		}
+		sb.WriteByte(e[i])
+		i++
+	}
+	return sb.String()
 }
 
 func actionOutputsSexp(spec string) string {
@@ -507,11 +539,35 @@ func genVisitWorkflow(rng *rand.Rand) *vWorkflow {
 		b.add("    steps:")
 		nSteps := 1 + rng.Intn(4)
 		used := map[string]bool{}
+		// directed scenario (1 job in 5): a step with an id that uses an action with a fixed set of outputs, then a step whose
+		// id contains a placeholder (the steps object becomes open but keeps what it knows), then references to declared
+		// and undeclared outputs of the first step
+		scenario := rng.Intn(5) == 0
+		if scenario {
+			nSteps = 3 + rng.Intn(2)
+		}
+		g.bias = nil
 		for si := 0; si < nSteps; si++ {
 			id, idExpr := "N", 0
 			first := "      - "
 			cont := "        "
-			if rng.Intn(2) == 0 {
+			forceSpec := ""
+			if scenario && si == 0 {
+				used["alpha"] = true
+				w := randCase(rng, "alpha")
+				b.add(first + "id: " + w)
+				first = cont
+				id = hx(w)
+				forceSpec = g.pick([]string{"actions/cache@v4", "actions/checkout@v4", "actions/upload-artifact@v4"})
+			} else if scenario && si == 1 {
+				w := "dyn-${{ github.run_id }}"
+				idExpr = 1
+				b.add(first + "id: " + w)
+				first = cont
+				id = hx(w)
+				g.bias = []string{"steps.alpha.outputs.cache-hit", "steps.alpha.outputs.cache_hit", "steps.ALPHA.outputs.ref", "steps.alpha.outputs.nope",
+					"steps['Alpha'].outputs['artifact-id']", "steps.alpha.conclusion", "steps.unknown.outputs.x", "steps.alpha.nope"}
+			} else if rng.Intn(2) == 0 {
 				raw := g.pick([]string{"alpha", "beta", "gamma"})
 				if !used[raw] {
 					used[raw] = true
@@ -527,8 +583,11 @@ func genVisitWorkflow(rng *rand.Rand) *vWorkflow {
 			}
 			var ps []string
 			out := "(obj,(),string)"
-			if rng.Intn(3) == 0 {
+			if forceSpec != "" || rng.Intn(3) == 0 {
 				spec := g.pick([]string{"actions/checkout@v4", "actions/github-script@v7", "actions/cache@v4", "actions/upload-artifact@v4"})
+				if forceSpec != "" {
+					spec = forceSpec
+				}
 				b.add(first + "uses: " + spec)
 				out = actionOutputsSexp(spec)
 				if rng.Intn(2) == 0 {
@@ -563,6 +622,7 @@ func genVisitWorkflow(rng *rand.Rand) *vWorkflow {
 			}
 			steps = append(steps, fmt.Sprintf("(%s,%d,%s,%s)", id, idExpr, out, sexpList(ps)))
 		}
+		g.bias = nil
 		var needsHex, outsHex []string
 		for _, n := range needs {
 			needsHex = append(needsHex, hx(n))
